@@ -219,6 +219,8 @@ impl Diff {
         // a third of the entry points are filtermaps (accept / reject with payloads)
         cfg.filtermap_main = true;
         cfg.trk_consts = true;
+        // zero-sized components: records and enums with `()` fields / payloads
+        cfg.unit_fields = cfg.max_user_types > 0;
         if !args.flag("no-avoid") {
             // zero-sized tracked values are never cloned/dropped by compiled code
             // (known finding C03/zst-elided); the witnesses keep exercising it
